@@ -68,6 +68,10 @@ def _rules():
             lambda R, c, rid: c16.rule_j(R, c, rid),
             lambda R, c, rid: accessors.blocks_cursor(R, c, rid),
             lambda R, c, rid: c16.rule_k(R, c, rid),
+            lambda R, c, rid: shared.api_delegations(R, c, rid, shared.IDSET_DELEGATIONS,
+                                                     "R-PROV the thin layer of the id sets (see C16.m): every IdSet / IdMap operation is the operation "
+                                                     "of the same name on the inner maps of both operands, each operand handed on as the caller "
+                                                     "passed it — no filtering `fast path` in front of the set algebra"),
         ],
         "slice": [
             lambda R, c, rid: c13.rule_c(R, c, rid),
